@@ -251,10 +251,10 @@ def run_oracle_sharded(casefile, outfile, shards=16, timeout=3600):
     if n < 64 or shards <= 1:
         return run_oracle(casefile, outfile, timeout)
     shards = min(shards, n)
-    step = (n + shards - 1) // shards
+    # round-robin split: case files are usually ordered by kind / size, contiguous shards would put all the heavy cases in one
     procs = []
     for i in range(shards):
-        part = lines[i * step:(i + 1) * step]
+        part = lines[i::shards]
         if not part:
             continue
         cf = '%s.%d' % (casefile, i)
@@ -277,13 +277,21 @@ def run_oracle_sharded(casefile, outfile, shards=16, timeout=3600):
         if p.returncode != 0:
             ok = False
             log += 'oracle shard %d failed: %s\n' % (i, (o or b'').decode(errors='replace')[-2000:])
+    outs = {}
+    for i, cf, p in procs:
+        part = pathlib.Path('%s.%d' % (outfile, i))
+        if part.exists():
+            pl = part.read_text().split('\n')
+            if pl and pl[-1] == '':
+                pl.pop()
+            outs[i] = pl
+            part.unlink()
+        pathlib.Path(cf).unlink()
     with open(outfile, 'w') as f:
-        for i, cf, p in procs:
-            part = pathlib.Path('%s.%d' % (outfile, i))
-            if part.exists():
-                f.write(part.read_text())
-                part.unlink()
-            pathlib.Path(cf).unlink()
+        for j in range(n):
+            pl = outs.get(j % shards, [])
+            k = j // shards
+            f.write((pl[k] if k < len(pl) else 'MISSING') + '\n')
     return ok, log
 
 
